@@ -14,9 +14,14 @@ package driver
 // address n (live / finished context); F/G SDK update fails / works; Q/q/Qe/Qw/Qg/Ql TrySend(GetReaderConfig)
 // with a connected reader answering success / an error status / ERROR_MESSAGE / another message type /
 // an undecodable payload / after the deadline.
+// H the next UpdateDeviceOperatingState call is SLOW: it does not return until R; W watch: the script expects the
+// supervisor to sit in that call — any attempt it makes meanwhile is accepted (good handshake), the
+// slow call is then released and the script ends there.
 //
 // answer line: the observed history "d<n> hs fail norm stop a<n> rU+ rD- s<sendfor>/<class> ..."
-// followed by " | up=<isUp>"; irregularities appear as tokens starting with '!'.
+// followed by " | up=<isUp>"; irregularities appear as tokens starting with '!'. Reports are logged
+// when the SDK call RETURNS (that is what EdgeX holds); a slow call is logged cU / cD when it is made
+// and rU+h / rD+h when it returns.
 //
 // How dial attempts are observed, including refused ones: the device is given a net.Addr whose
 // String() is a host NAME ("s<id>-a<n>.c15.test.:<port>"); net.DefaultResolver is replaced by a
@@ -33,6 +38,7 @@ import (
 	"fmt"
 	"io"
 	"net"
+	"os"
 	"runtime"
 	"strconv"
 	"strings"
@@ -250,6 +256,15 @@ type c15Run struct {
 	dev     *LLRPDevice
 	name    string
 	devices []models.Device
+	// a slow SDK call: armed = the next call made is held; held = the call in flight
+	armed    atomic.Bool
+	held     atomic.Pointer[c15Held]
+	captured chan struct{}
+}
+
+type c15Held struct {
+	release chan struct{}
+	done    chan struct{}
 }
 
 func (r *c15Run) logf(tok string) {
@@ -278,6 +293,33 @@ func (s *c15SDK) UpdateDeviceOperatingState(name string, st models.OperatingStat
 	}
 	if name != s.run.name {
 		tok = "!name:" + tok
+	}
+	if s.run.armed.CompareAndSwap(true, false) {
+		// the slow call: made now, returns when the script releases it
+		h := &c15Held{release: make(chan struct{}), done: make(chan struct{})}
+		s.run.held.Store(h)
+		s.run.logf("c" + strings.TrimPrefix(tok, "r"))
+		if s.run.captured != nil {
+			select {
+			case s.run.captured <- struct{}{}:
+			default:
+			}
+		}
+		select {
+		case <-h.release:
+		case <-time.After(30 * time.Second):
+			s.run.logf("!heldtimeout")
+		}
+		var err error
+		if s.run.sdkFail.Load() {
+			s.run.logf(tok + "-h")
+			err = errors.New("scripted SDK failure")
+		} else {
+			s.run.logf(tok + "+h")
+		}
+		s.run.held.Store(nil)
+		close(h.done)
+		return err
 	}
 	if fail {
 		s.run.logf(tok + "-")
@@ -517,7 +559,8 @@ const (
 )
 
 func c15RunScript(id string, up0 bool, toks []string) string {
-	r := &c15Run{id: id, queries: make(chan c15Query, 64), conns: make(chan net.Conn, 64), name: "dev-" + id}
+	r := &c15Run{id: id, queries: make(chan c15Query, 64), conns: make(chan net.Conn, 64), name: "dev-" + id,
+		captured: make(chan struct{}, 1)}
 	const nAddr = 3
 	var listeners [nAddr]net.Listener
 	var addrs [nAddr]net.Addr
@@ -621,6 +664,84 @@ func c15RunScript(id string, up0 bool, toks []string) string {
 		c15Pace(func() bool { c := r.client(); return c != nil && c != before }, 100*time.Millisecond)
 	}
 	abort := false
+	// release the slow SDK call (if one is in flight) and wait until it has returned
+	release := func() bool {
+		h := r.held.Load()
+		if h == nil {
+			return false
+		}
+		close(h.release)
+		select {
+		case <-h.done:
+		case <-time.After(3 * time.Second):
+			r.logf("!releasestuck")
+		}
+		time.Sleep(5 * time.Millisecond) // whoever made the call goes on
+		return true
+	}
+	// one attempt of the device, announced by its lookup q, answered according to tok
+	dialStep := func(tok string, q c15Query) {
+		select {
+		case <-r.captured: // a slow call made before this attempt: not this attempt's business
+		default:
+		}
+		r.logf("d" + strconv.Itoa(q.label))
+		before := r.client()
+		errsBefore := r.errLogs.Load()
+		if tok[1] == 'R' {
+			r.logf("fail")
+			q.reply <- [4]byte{127, 0, 0, 2}
+			c15Pace(func() bool { return r.errLogs.Load() != errsBefore }, 25*time.Millisecond)
+			return
+		}
+		q.reply <- [4]byte{127, 0, 0, 1}
+		var c net.Conn
+		select {
+		case c = <-r.conns:
+		case <-time.After(4 * time.Second):
+			r.logf("!noconn")
+			abort = true
+			return
+		}
+		if got := c.LocalAddr().(*net.TCPAddr).Port; got != listeners[q.label].Addr().(*net.TCPAddr).Port {
+			r.logf("!wrongport")
+		}
+		cn := &c15Conn{c: c, mode: tok[1], done: make(chan struct{}), stepDone: make(chan string, 4)}
+		want := 1
+		if r.stale {
+			want = 2 // the pending SetReaderConfig of the earlier onConnect arrives here too
+		}
+		go r.serve(cn, want)
+		var what string
+		select {
+		case what = <-cn.stepDone:
+		case <-r.captured:
+			// onConnect sits in the slow Up call: its SetReaderConfig comes after the release
+			what = "src"
+		case <-time.After(map[bool]time.Duration{false: map[bool]time.Duration{false: 6 * time.Second, true: 80 * time.Second}[tok[1] == 'Z' || tok[1] == 'P'],
+			true: 1500 * time.Millisecond}[want == 2 && tok[1] == 'E']):
+			what = "timeout"
+			if !(want == 2 && tok[1] == 'E') {
+				r.logf("!steptimeout")
+			}
+		}
+		if want == 2 && what != "early" {
+			r.stale = false
+		}
+		switch what {
+		case "early":
+			// the device closed the connection right after our connection event
+			r.stale = true
+			<-cn.done
+		case "src", "timeout":
+			cur = cn
+		case "closed":
+			<-cn.done
+		case "dropped":
+			<-cn.done
+			c15Pace(func() bool { return r.client() != before }, 60*time.Millisecond)
+		}
+	}
 	for _, tok := range toks {
 		if abort {
 			break
@@ -635,58 +756,37 @@ func c15RunScript(id string, up0 bool, toks []string) string {
 				abort = true
 				continue
 			}
-			r.logf("d" + strconv.Itoa(q.label))
-			before := r.client()
-			errsBefore := r.errLogs.Load()
-			if tok[1] == 'R' {
-				r.logf("fail")
-				q.reply <- [4]byte{127, 0, 0, 2}
-				c15Pace(func() bool { return r.errLogs.Load() != errsBefore }, 25*time.Millisecond)
-				continue
-			}
-			q.reply <- [4]byte{127, 0, 0, 1}
-			var c net.Conn
+			dialStep(tok, q)
+		case tok == "H":
 			select {
-			case c = <-r.conns:
-			case <-time.After(4 * time.Second):
-				r.logf("!noconn")
-				abort = true
-				continue
+			case <-r.captured:
+			default:
 			}
-			if got := c.LocalAddr().(*net.TCPAddr).Port; got != listeners[q.label].Addr().(*net.TCPAddr).Port {
-				r.logf("!wrongport")
-			}
-			cn := &c15Conn{c: c, mode: tok[1], done: make(chan struct{}), stepDone: make(chan string, 4)}
-			want := 1
-			if r.stale {
-				want = 2 // the pending SetReaderConfig of the earlier onConnect arrives here too
-			}
-			go r.serve(cn, want)
-			var what string
-			select {
-			case what = <-cn.stepDone:
-			case <-time.After(map[bool]time.Duration{false: map[bool]time.Duration{false: 6 * time.Second, true: 80 * time.Second}[tok[1] == 'Z' || tok[1] == 'P'],
-				true: 1500 * time.Millisecond}[want == 2 && tok[1] == 'E']):
-				what = "timeout"
-				if !(want == 2 && tok[1] == 'E') {
-					r.logf("!steptimeout")
+			r.armed.Store(true)
+			r.logf("H")
+		case tok == "R":
+			r.logf("R")
+			if !release() {
+				r.logf("!norelease")
+			} else if cur != nil {
+				// an onConnect that sat in the slow call now sends its SetReaderConfig on the standing
+				// connection: let the reader answer it before the script goes on
+				select {
+				case <-cur.stepDone:
+				case <-time.After(300 * time.Millisecond):
 				}
 			}
-			if want == 2 && what != "early" {
-				r.stale = false
-			}
-			switch what {
-			case "early":
-				// the device closed the connection right after our connection event
-				r.stale = true
-				<-cn.done
-			case "src", "timeout":
-				cur = cn
-			case "closed":
-				<-cn.done
-			case "dropped":
-				<-cn.done
-				c15Pace(func() bool { return r.client() != before }, 60*time.Millisecond)
+		case tok == "W":
+			// the script (the model of the tree) expects the supervisor to sit in the slow call: no
+			// attempt for a slow wait and a quick one. An attempt that does come is a connection the
+			// reader accepts; the slow call then returns and the script ends here.
+			r.logf("W")
+			select {
+			case q := <-r.queries:
+				dialStep("DE", q)
+				release()
+				abort = true
+			case <-time.After(c15SlowWait + c15QuickWait + 100*time.Millisecond):
 			}
 		case tok == "X":
 			if cur == nil {
@@ -787,6 +887,10 @@ func c15RunScript(id string, up0 bool, toks []string) string {
 		default:
 			r.logf("!badtoken:" + tok)
 		}
+	}
+	r.armed.Store(false)
+	if release() {
+		r.logf("!autorelease")
 	}
 	if !stopped {
 		// not part of the script: clean up (scripts normally end with Stop)
@@ -1183,6 +1287,165 @@ func c15RunReadd(id string, reps int, logDelay time.Duration) string {
 	return fmt.Sprintf("managed=%d/%d connected=%d/%d maxconc=%d", managed, reps, connected, reps, e.maxconc.Load())
 }
 
+// c15RunPend: a dial that is neither accepted nor refused when Stop arrives. The scripted reader
+// listens with a full accept queue (listen backlog 0, the queue filled with connections of the
+// harness itself, nobody calls accept): the kernel drops further SYNs, a dial hangs in SYN-SENT and
+// retransmits after 1 s, 3 s. k attempts are refused first, the next one hangs; the device is
+// stopped (how = "stop": LLRPDevice.Stop, "remove": Driver.RemoveDevice); then the reader starts
+// accepting. Every connection accepted that is not one of the harness's own was established by the
+// stopped device. The environment is probed first: if a dial to the full queue does not hang, the
+// scenario is skipped ("skip:<why>"), never judged.
+// answer: "late=<connections of the device established after Stop> fillers=<n> waited=<ms>"
+func c15RunPend(id string, how string, k int) string {
+	fd, err := syscall.Socket(syscall.AF_INET, syscall.SOCK_STREAM, 0)
+	if err != nil {
+		return "skip:socket"
+	}
+	closeFd := true
+	defer func() {
+		if closeFd {
+			syscall.Close(fd)
+		}
+	}()
+	if err := syscall.Bind(fd, &syscall.SockaddrInet4{Addr: [4]byte{127, 0, 0, 1}}); err != nil {
+		return "skip:bind"
+	}
+	if err := syscall.Listen(fd, 0); err != nil {
+		return "skip:listen"
+	}
+	sa, err := syscall.Getsockname(fd)
+	if err != nil {
+		return "skip:getsockname"
+	}
+	port := sa.(*syscall.SockaddrInet4).Port
+	target := "127.0.0.1:" + strconv.Itoa(port)
+	if rfd, err := c15ReservePort([4]byte{127, 0, 0, 2}, port); err == nil {
+		defer syscall.Close(rfd)
+	}
+	// fill the accept queue until a further dial hangs
+	var fillers []net.Conn
+	defer func() {
+		for _, c := range fillers {
+			c.Close()
+		}
+	}()
+	own := map[string]bool{}
+	hangs := false
+	for i := 0; i < 6 && !hangs; i++ {
+		c, err := net.DialTimeout("tcp4", target, 300*time.Millisecond)
+		if err == nil {
+			fillers = append(fillers, c)
+			own[c.LocalAddr().String()] = true
+			continue
+		}
+		if ne, ok := err.(net.Error); ok && ne.Timeout() {
+			hangs = true
+		} else {
+			return "skip:probe-not-hanging"
+		}
+	}
+	if !hangs {
+		return "skip:queue-never-full"
+	}
+
+	r := &c15Run{id: id, name: "pend-" + id}
+	type lookup struct{ at time.Time }
+	lookups := make(chan lookup, 16)
+	var nq atomic.Int64
+	c15DNS.register("s"+id, func(label int) [4]byte {
+		n := nq.Add(1)
+		lookups <- lookup{at: time.Now()}
+		if int(n) <= k {
+			return [4]byte{127, 0, 0, 2} // refused
+		}
+		return [4]byte{127, 0, 0, 1} // the full queue: the dial hangs
+	})
+	defer c15DNS.unregister("s" + id)
+	asyncCh := make(chan *dsModels.AsyncValues, 256)
+	stopDrain := make(chan struct{})
+	defer close(stopDrain)
+	go func() {
+		for {
+			select {
+			case <-asyncCh:
+			case <-stopDrain:
+				return
+			}
+		}
+	}()
+	d := &Driver{lc: c15Logger{errs: &r.errLogs}, asyncCh: asyncCh, svc: &c15SDK{run: r},
+		activeDevices: make(map[string]*LLRPDevice), done: make(chan struct{}), config: &ServiceConfig{}}
+	dev := d.NewLLRPDevice(r.name, c15Addr(fmt.Sprintf("s%s-a0.c15.test.:%d", id, port)), models.Up)
+	r.dev = dev
+	d.devicesMu.Lock()
+	d.activeDevices[r.name] = dev
+	d.devicesMu.Unlock()
+	for i := 0; i <= k; i++ {
+		select {
+		case <-lookups:
+		case <-time.After(6 * time.Second):
+			ctx, cancel := context.WithTimeout(context.Background(), 50*time.Millisecond)
+			_ = dev.Stop(ctx)
+			cancel()
+			return "!nodial"
+		}
+	}
+	time.Sleep(150 * time.Millisecond) // the SYN is out and has been dropped
+	switch how {
+	case "remove":
+		_ = d.RemoveDevice(r.name, nil)
+	default:
+		ctx, cancel := context.WithTimeout(context.Background(), 50*time.Millisecond)
+		_ = dev.Stop(ctx)
+		cancel()
+	}
+	stopAt := time.Now()
+	time.Sleep(20 * time.Millisecond)
+
+	// the reader gets round to accepting
+	f := os.NewFile(uintptr(fd), "c15-pend-listener")
+	closeFd = false
+	ln, err := net.FileListener(f)
+	f.Close()
+	if err != nil {
+		return "skip:filelistener"
+	}
+	defer ln.Close()
+	accepted := make(chan net.Conn, 16)
+	go func() {
+		for {
+			c, err := ln.Accept()
+			if err != nil {
+				return
+			}
+			accepted <- c
+		}
+	}()
+	late, seenOwn := 0, 0
+	deadline := time.After(3400 * time.Millisecond) // SYN retransmissions 1 s and 3 s after the first
+watch:
+	for {
+		select {
+		case c := <-accepted:
+			if own[c.RemoteAddr().String()] {
+				seenOwn++
+			} else {
+				late++
+			}
+			c.Close()
+			if late > 0 {
+				break watch
+			}
+		case <-deadline:
+			break watch
+		}
+	}
+	if seenOwn != len(fillers) {
+		return fmt.Sprintf("skip:own-connections-%d-of-%d", seenOwn, len(fillers))
+	}
+	return fmt.Sprintf("late=%d fillers=%d waited=%d", late, len(fillers), time.Since(stopAt).Milliseconds())
+}
+
 func TestVerifC15(t *testing.T) {
 	lines, w, done := verifIO(t)
 	defer done()
@@ -1233,6 +1496,15 @@ func TestVerifC15(t *testing.T) {
 				n, _ := strconv.Atoi(f[2])
 				reps, _ := strconv.Atoi(f[3])
 				emit("R %d %s\n", i, c15RunRace(f[0], n, reps))
+				return
+			}
+			if f[1] == "hold" && len(f) >= 4 {
+				emit("R %d %s\n", i, c15RunScript(f[0], f[2] == "1", f[3:]))
+				return
+			}
+			if f[1] == "pend" && len(f) == 4 {
+				k, _ := strconv.Atoi(f[3])
+				emit("R %d %s\n", i, c15RunPend(f[0], f[2], k))
 				return
 			}
 			if f[1] == "start" && len(f) == 4 {
